@@ -167,6 +167,11 @@ theorem call_no_panic (m : Machine) (env : Nat → List IoRes) (hm : WFm m) (fue
   rcases call_outcomes m env hm fuel e s hs with ⟨r, s', h, _⟩ | ⟨er, s', h⟩ | ⟨s', h, _⟩ <;>
     (rw [h]; intro hh; cases hh)
 
+/-- the part of every `call_*` before `run` (context check, definition lookup, arity and type
+checks, label lookup, scope reset, argument pushes): `Ok` with a well-formed state or `Err` -/
+theorem enter_no_panic (m : Machine) (e : Entry) (s : RunState) (hs : WFs s) : (enter m e s).safe T :=
+  enter_safe m e s hs
+
 /-- the `setup_*` functions alone (public API): `Ok` with a well-formed state or `Err`, never a panic -/
 theorem setup_action_safe (m : Machine) (name : Nat) (args : List Value) (s : RunState) (hs : WFs s) :
     (setupAction m name args s).safe T := safe_setupAction m name args s hs
